@@ -371,12 +371,20 @@ class sp_extract(Contract):
         yield "subscript-outside-shape", T.Exists(
             [k, m], z3.And(0 <= k, T.tz(k < p), 0 <= m, m < Nn, z3.Or(T.tz(R.fn(k, m)) < 0, T.tz(R.fn(k, m)) >= T.tz(shp.fn(m)))))
 
+    def fresh_result(self, S, a):
+        R = a["searchsubs"]
+        if not (isinstance(R, Arr) and R.ndim == 2):
+            raise PathAbort("extract call site: searchsubs is not a matrix")
+        if not hasattr(a["__self__"], "ghost") or "find" not in a["__self__"].ghost:
+            attach_ghost(S, a["__self__"])
+        return Arr.fresh("extracted", (R.shape[0], 1), "real")
+
     def ensures(self, S, a, ret):
         A, R = a["__self__"], a["searchsubs"]
         p = R.shape[0]
         yield "column-with-one-entry-per-row", S.And(isinstance(ret, Arr) and ret.ndim == 2, S.eq(ret.shape[0], p), S.eq(ret.shape[1], 1))
         k = z3.Int("x!k")
-        yield "entry-is-the-denoted-value", T.ForAll([k], z3.Implies(z3.And(0 <= k, T.tz(k < p)), T.tz(T.as_real(ret.fn(k, 0))) == den(A, R.rowfn(k))))
+        yield "entry-is-the-denoted-value", T.ForAll([k], z3.Implies(z3.And(0 <= k, T.tz(k < p)), T.tz(T.as_real(ret.fn(k, 0))) == den(A, N.ensure_rows(S.ctx, R)(k))))
 
 
 @register
@@ -463,6 +471,8 @@ def indicator_clauses(S, ret, A, pred, witness=None, tag="indicator"):
     r = z3.Const("ind!r", N.Row)
     out.append((f"{tag}:stored-values-are-one", T.ForAll([k], z3.Implies(z3.And(0 <= k, T.tz(k < m)), T.tz(T.as_real(vals.fn(k, 0))) == 1))))
     out.append((f"{tag}:stored-rows-satisfy-the-predicate", T.ForAll([k], z3.Implies(z3.And(0 <= k, T.tz(k < m)), pred(rf(k))))))
+    if witness == "skip":
+        return out
     if witness is not None:
         out.append((f"{tag}:every-row-satisfying-the-predicate-is-stored(witness)", T.ForAll(
             [r], z3.Implies(z3.And(N.INRNG(srow, r), pred(r)), z3.And(0 <= witness(r), T.tz(witness(r) < m), rf(witness(r)) == r)), [N.INRNG(srow, r)])))
@@ -523,10 +533,15 @@ class _ScalarCompare(Contract):
     op = None  # (python operator on z3 terms)
 
     def case_names(self):
-        return ["c>0", "c<0", "c==0"]
+        return ["c>0", "c<0", "c==0"] + (["sparse"] if type(self).sparse_case else [])
+
+    sparse_case = False
 
     def setup(self, S, case):
         A = sym_sptensor(S, "A")
+        if case == "sparse":
+            B = sym_sptensor(S, "B", shape=A.fields["shape"])
+            return dict(__self__=A, other=B)
         c = S.real("c")
         S.assume({"c>0": c > 0, "c<0": c < 0, "c==0": c == 0}[case])
         return dict(__self__=A, other=c)
@@ -535,6 +550,14 @@ class _ScalarCompare(Contract):
         A, c = a["__self__"], a["other"]
         find, srow = A.ghost["find"], A.ghost["srow"]
         op = type(self).op
+        if isinstance(c, Rec):
+            B = c
+            pred = lambda r: op(den(A, r), den(B, r))
+            # soundness and well-formedness only: "every position satisfying the predicate is stored" needs
+            # a path-dependent witness through three filtered blocks and is left to the bounded stand-in
+            for cl in indicator_clauses(S, ret, A, pred, "skip", tag="sparse"):
+                yield cl
+            return
         pred = _den_pred(A, lambda stored, v: z3.If(stored, op(v, c), op(z3.RealVal(0), c)))
         g = S.body_ghosts
         wit = None
@@ -557,13 +580,15 @@ class _ScalarCompare(Contract):
 @register
 class sp_lt(_ScalarCompare):
     qual = Q + "__lt__"
-    doc = "S < c (scalar): well-formed indicator of exactly the positions where Den(S) < c (implicit zeros included when 0 < c)."
+    sparse_case = True
+    doc = "S < c (scalar): well-formed indicator of exactly the positions where Den(S) < c (implicit zeros included when 0 < c).  S < T (sparse, same shape): the result is well-formed and every stored position satisfies Den(S) < Den(T) (soundness; completeness bounded)."
     op = staticmethod(lambda v, c: v < c)
 
 
 @register
 class sp_le(_ScalarCompare):
     qual = Q + "__le__"
+    sparse_case = True
     doc = "S <= c (scalar): indicator of exactly the positions where Den(S) <= c."
     op = staticmethod(lambda v, c: v <= c)
 
@@ -571,6 +596,7 @@ class sp_le(_ScalarCompare):
 @register
 class sp_gt(_ScalarCompare):
     qual = Q + "__gt__"
+    sparse_case = True
     doc = "S > c (scalar): indicator of exactly the positions where Den(S) > c."
     op = staticmethod(lambda v, c: v > c)
 
@@ -578,6 +604,7 @@ class sp_gt(_ScalarCompare):
 @register
 class sp_ge(_ScalarCompare):
     qual = Q + "__ge__"
+    sparse_case = True
     doc = "S >= c (scalar): indicator of exactly the positions where Den(S) >= c."
     op = staticmethod(lambda v, c: v >= c)
 
@@ -585,6 +612,7 @@ class sp_ge(_ScalarCompare):
 @register
 class sp_eq(_ScalarCompare):
     qual = Q + "__eq__"
+    sparse_case = True
     doc = "S == c (scalar): indicator of exactly the positions where Den(S) == c (c == 0: the implicit zeros)."
     op = staticmethod(lambda v, c: v == c)
 
